@@ -71,6 +71,12 @@ def main(tier, seed):
                 script = rand_script(rng, len(p))
             k += 1
             src = render_prog(p, rng.choice([" ", "\n", "  "]))
+            mix = random.Random(seed * 1000003 + k)          # own stream: the main one stays as it was
+            if mix.random() < 0.3:
+                src = render_mixed(p, mix)
+                if len(p) >= 2 and mix.random() < 0.6:
+                    # several breakpoints at positions whose line:column texts have different widths, then the listing
+                    script = "".join("b %d\n" % i for i in mix.sample(range(len(p)), min(len(p), mix.randint(2, 4)))) + "b\n" + script
             path = os.path.join(tmp, "d%d.hyeong" % k)
             open(path, "w", encoding="utf-8").write(src)
             jobs.append((path, script, 5))
